@@ -52,6 +52,24 @@ func NewHost() *Host {
 	h.Env.Define("gvar", func(a interface{}, rest ...interface{}) interface{} {
 		return list(append([]interface{}{a}, rest...)...)
 	})
+	h.Env.Define("gderef", func(p interface{}, b interface{}) interface{} {
+		v := reflect.ValueOf(p)
+		for v.IsValid() && (v.Kind() == reflect.Ptr || v.Kind() == reflect.Interface) && !v.IsNil() {
+			v = v.Elem()
+		}
+		if !v.IsValid() || ((v.Kind() == reflect.Ptr || v.Kind() == reflect.Interface) && v.IsNil()) {
+			return list(nil, b)
+		}
+		return list(v.Interface(), b)
+	})
+	h.Env.Define("hnil", map[string]interface{}(nil))
+	h.Env.Define("hnilm", map[interface{}]interface{}(nil))
+	h.Env.Define("harr", [3]int64{5, 6, 7})
+	h.Env.Define("gch", func(v interface{}) interface{} {
+		ch := make(chan interface{}, 1)
+		ch <- v
+		return ch
+	})
 	h.Env.Define("gtyped", func(a int64, b string, c int64) interface{} { return list(a, b, c) })
 	h.Env.Define("gtvar", func(a string, rest ...int64) interface{} {
 		out := []interface{}{a}
